@@ -276,6 +276,50 @@ func (r *storeRun) op(t *toks) {
 			r.sf = sf
 		}
 		line(50, 0)
+	case 60:
+		// damage: patches (offset, xor mask) applied to the closed file, which is then opened again
+		mode, _ := syz.FileMode(t.next()), t.next()
+		n := int(t.next())
+		type patch struct{ off, mask uint64 }
+		ps := make([]patch, n)
+		for i := range ps {
+			ps[i] = patch{t.next(), t.next()}
+		}
+		if r.c != nil {
+			r.c.Close()
+		} else {
+			r.sf.Close()
+		}
+		img, err := os.ReadFile(r.path)
+		if err != nil {
+			panic(err)
+		}
+		for _, p := range ps {
+			if int(p.off) < len(img) {
+				img[p.off] ^= byte(p.mask)
+			}
+		}
+		if err := os.WriteFile(r.path, img, 0644); err != nil {
+			panic(err)
+		}
+		if r.c != nil {
+			r.c = nil
+			c, err := syz.NewCollection(syz.CollectionOptions{Name: r.path, FileMode: mode})
+			if err != nil {
+				line(60, 1)
+				return
+			}
+			r.c = c
+		} else {
+			r.sf = nil
+			sf, err := syz.OpenFile(r.path, mode)
+			if err != nil {
+				line(60, 1)
+				return
+			}
+			r.sf = sf
+		}
+		line(60, 0)
 	case 31:
 		r.stateLine()
 	case 32:
